@@ -3,6 +3,7 @@ package c09
 import (
 	"bytes"
 	stdjson "encoding/json"
+	"errors"
 	"fmt"
 	"reflect"
 
@@ -214,12 +215,34 @@ type EOp struct {
 
 // ECase is a call sequence on one Encoder.
 type ECase struct {
-	Ops []EOp `json:"ops"`
+	Ops    []EOp `json:"ops"`
+	FailAt int   `json:"fail_at,omitempty"` // k >= 1: the k-th Write of each encoder's writer fails once (0 bytes, error)
+}
+
+// flakyW is a buffer whose k-th Write fails.
+type flakyW struct {
+	bytes.Buffer
+	calls, failAt int
+	fired         bool
+}
+
+var errFlaky = errors.New("c09: writer failed")
+
+func (w *flakyW) Write(p []byte) (int, error) {
+	w.calls++
+	if w.calls == w.failAt {
+		w.fired = true
+		return 0, errFlaky
+	}
+	return w.Buffer.Write(p)
 }
 
 func genECase(t *rapid.T) ECase {
 	n := rapid.IntRange(1, 6).Draw(t, "nops")
 	var c ECase
+	if rapid.IntRange(0, 3).Draw(t, "flaky") == 0 {
+		c.FailAt = rapid.IntRange(1, 4).Draw(t, "failat")
+	}
 	// encoding/json's Encoder alone is driven alongside to steer around F16.
 	var sim bytes.Buffer
 	simEnc := stdjson.NewEncoder(&sim)
@@ -255,9 +278,9 @@ func genECase(t *rapid.T) ECase {
 // RunEncoder decides one Encoder call sequence.
 func RunEncoder(c ECase) error {
 	rec.Eval()
-	var ws, wv bytes.Buffer
-	es := stdjson.NewEncoder(&ws)
-	ev := v1.NewEncoder(&wv)
+	ws, wv := &flakyW{failAt: c.FailAt}, &flakyW{failAt: c.FailAt}
+	es := stdjson.NewEncoder(ws)
+	ev := v1.NewEncoder(wv)
 	feature := false
 	html := true
 	curPrefix, curIndent := "", ""
@@ -307,6 +330,14 @@ func RunEncoder(c ECase) error {
 			failS, failV := errS != nil || panS != nil, errV != nil || panV != nil
 			if failS != failV {
 				return fmt.Errorf("%s: encoding/json: %v; v1: %v (written so far %q / %q)", what, errOrPanic(errS, panS), errOrPanic(errV, panV), ws.Bytes(), wv.Bytes())
+			}
+			if failS && ws.fired && wv.fired {
+				// a failed write: both encoders stay failed (or both recover); go on and compare
+				rec.Class("e:encode-after-writer-failure")
+				if !bytes.Equal(ws.Bytes(), wv.Bytes()) {
+					return fmt.Errorf("%s: after a failed write the writers hold different bytes:\n encoding/json: %q\n v1:            %q", what, ws.Bytes(), wv.Bytes())
+				}
+				continue
 			}
 			if failS {
 				rec.Class("e:encode-error(sequence stops)")
